@@ -7,13 +7,14 @@
 #include <vector>
 #include <functional>
 #include <thread>
+#include <pthread.h>
 #include <cstdint>
 #include <string>
 
 namespace cosched {
 enum Kind { K_LOAD = 0, K_STORE = 1, K_RMW = 2, K_CAS = 3, K_FENCE = 4, K_FUTEX_WAIT = 5, K_FUTEX_WAKE = 6, K_YIELD = 7, K_NONE = 9 };
 enum St { ST_RUN = 0, ST_HOOK = 1, ST_DONE = 2, ST_BLOCKED = 3 };
-enum Rc { RC_OK = 0, RC_DEADLOCK = 1, RC_STEPLIMIT = 2, RC_STALL = 3 };
+enum Rc { RC_OK = 0, RC_DEADLOCK = 1, RC_STEPLIMIT = 2, RC_STALL = 3, RC_HANG = 4 };   // RC_HANG: a single step never came back (loop without any shared access)
 
 struct Pending { const void* addr; int kind; int order; unsigned size; };
 struct StoreEnt { void* addr; unsigned size; unsigned char val[16]; };
@@ -24,7 +25,7 @@ struct LT {
     Pending pend{nullptr, K_NONE, 0, 0};
     std::atomic<int> state{ST_RUN};
     const void* waitaddr = nullptr;
-    std::thread th;
+    pthread_t th{}; bool joinable = false;   // the real thread behind a scenario thread (daemons are created by the code under test)
     long hooks = 0;
     bool tso = false;                 // this logical thread buffers its non-seq_cst stores
     bool daemon = false;              // created by the code under test (an RML worker): the run does not wait for it to finish
@@ -61,6 +62,8 @@ struct Sched {
     long drains = 0, buffered = 0, futex_waits = 0, futex_wakes = 0, daemons_created = 0;
     std::vector<int> sched_log;       // thread id of every granted step (>=0) / -(t+1) for a drain of t's buffer
     bool log_schedule = false;
+    bool hung = false; int hang_seconds = 45;
+    long soft_steps = 1000000; double soft_seconds = 90, t_start = 0; bool over_time();
 
     Sched();
     ~Sched();
